@@ -496,6 +496,15 @@ func (c *Ctx) finish(res *FuncResult) {
 
 func mentionsShort(e Expr, name string) bool {
 	found := false
+	if strings.HasPrefix(name, "ghost:") {
+		// an axiom about a ghost field that the function's obligations read
+		walkExpr(e, func(x Expr) {
+			if s, ok := x.(*ESel); ok && s.F == name[6:] {
+				found = true
+			}
+		})
+		return found
+	}
 	walkExpr(e, func(x Expr) {
 		if c, ok := x.(*ECall); ok {
 			s := c.Fn
